@@ -1213,7 +1213,7 @@ func findLiteralFollowingLeadingLoop(node *RegexNode) *LiteralAfterLoop {
 		// The literal can be searched for as either a single char or as a string.
 		// But we need to make sure that its starting character isn't part of the preceding
 		// set, as then we can't know for certain where the set loop ends.
-		if firstChild.Set.CharIn(rune(prefix[0])) {
+		if first, _ := utf8.DecodeRuneInString(prefix); firstChild.Set.CharIn(first) {
 			return nil
 		} else if len(prefix) == 1 {
 			return &LiteralAfterLoop{
